@@ -32,6 +32,36 @@ CHECKS = {
          "For generated histories a crash image (metadata.db + snapshots/) is taken at EVERY hit of the 14 snap.* crash points and at every operation boundary; each image is restarted in a fresh process under {allow-invalid, strict, no-restore} x {all mounts succeed, k-th mount fails} (plus leftover real bind mounts) and checked: restart result as the mode prescribes, exactly the committed remote snapshots re-mounted with their labels, markers in ordinary snapshots intact, acknowledged snapshots usable/removable, one Cleanup leaves exactly the live ids. Exhaustive over the crash points hit by each history; holds on the histories generated.",
          "Trusted: a file copy of metadata.db taken while no transaction commits equals what a power cut leaves (bbolt writes only at commit); crash points inside containerd's storage package and inside a bbolt commit, and torn sector writes, are not enumerated.",
          "DESIGN.md section 5 C09"),
+ "C01": ("exploration",
+         "differential oracle against the generator model on altered blobs + hook-gated interleavings + Go race detector",
+         "Genuine blobs (gzip, zstd:chunked, external TOC) are served with alterations (bit flips per region, truncation, member swap, same-length recompressed different payload, re-serialised/edited TOC, tampered on-disk cache) through reader.NewReader (L1), layer.Resolver + node reads (L2) and a real fs.Mount over FUSE (L3, label matrix). Oracle: Verify(D) nil => sha256(TOC served) == D; after a successful verification every read is error or genuine bytes; every cached chunk hashes to a genuine chunk digest. Prefetch/VerifyTOC orders are imposed through build-tagged hook points (all permutations; orders the code's locking forbids are recorded as infeasible). All call histories <= 3 over {Verify(D), Verify(D'), SkipVerify} on one cached layer. Holds on the cases executed.",
+         "Trusted: the generator model (gen.CheckContent), an independent TOC-digest recomputation (std gzip/tar, klauspost zstd), SHA-256. Kernel FUSE passthrough splice is not covered (the in-process GetPassthroughFd path is).",
+         "DESIGN.md section 5 C01"),
+ "C03": ("exploration",
+         "three independent readings of every built blob (std decompressors + archive/tar, an independent spec reader, recomputed digests) + Go race detector",
+         "estargz.Build / Writer.AppendTar (one or two calls) / AppendTarLossLess over generated tars (plain, gzip, multi-member gzip, zstd, already-eStargz input) and an option product (chunk size, min-chunk-size, levels, gzip/zstd:chunked/external TOC, prioritized list, 1-8 workers). Each output is (1) fully decompressed with std/klauspost decoders and compared entry by entry with the input model, (2) parsed by internal/specread written from docs/estargz.md (every chunk read from its own offset/innerOffset, digests checked), (3) checked against recomputed TOC digest / DiffID / uncompressed size; lossless output must start with the input bytes. Parallel builds are re-run under the race detector. Holds on the cases executed.",
+         "Trusted: Go's compress/gzip, archive/tar, encoding/json, klauspost zstd, SHA-256; internal/specread's reading of docs/estargz.md (zstd:chunked footer layout taken from the public format). Domain: whole-second mtimes, names <= 200 bytes, files <= 160 KiB.",
+         "DESIGN.md section 5 C03"),
+ "C07": ("exploration",
+         "reference-model differential oracle (OCI layer application vs overlayfs merge) on permuted Lookup/Readdir orders + kernel overlayfs stage",
+         "Generated stacks of 1-5 layers (whiteouts, opaque markers, replaced entries, .wh. look-alikes, landmarks) x {memory, db} x {all, trusted, user opaque mode} x {direct, go-fuse bridge} lookup driver; in every directory the five operations run in a random permutation (all 120 orders are seen in a quick run). Oracle: expected lower view per layer, listed <=> Lookup succeeds, inode agreement/uniqueness/stability, overlayMerge(served) == applyOCI(tars) with independently written functions, state file JSON. A child stage mounts the layers with go-fuse and stacks them with the KERNEL's overlayfs, and an L3 stage mounts through service.NewFileSystem. Holds on the stacks generated.",
+         "Trusted: internal/ocistack reference functions (cross-checked against each other on 20 000 stacks by a unit test), the kernel's overlayfs in the thorough stage, containerd's overlayutils.NeedsUserXAttr. Layers carrying both a whiteout and a directory of one name are excluded as the statement does.",
+         "DESIGN.md section 5 C07"),
+ "C14": ("exploration",
+         "independent layout oracle over the decompressed tar and the TOC offsets read by an independent spec reader",
+         "estargz.Build with prioritized lists in all spellings (absolute, ./, ../, unclean), directories, hardlinks and targets, duplicates, the root, missing paths, landmark-named inputs, with/without allow-not-found, min-chunk-size streams, 1-8 workers, three compression schemes. Oracle computed from the statement: leading group = per listed path its not-yet-placed ancestors and link-target chain then the path, once each; exactly one landmark of the right kind at a stream boundary; every leading-group data offset below the landmark offset and every other at or above it; remaining entries in input order, nothing lost/duplicated/altered; missing paths abort or are reported exactly. Holds on the cases executed.",
+         "Trusted: internal/specread, archive/tar, std/klauspost decompressors. A listed directory that exists only implicitly is left as slack.",
+         "DESIGN.md section 5 C14"),
+ "C17": ("exploration",
+         "reference-model monitor over generated Init/Mount/Check/Unmount/Close/restart histories with recording filesystems + store read-back + Go race detector",
+         "The real fusemanager.Server (direct calls, and through the real gRPC server/client for a share of cases) with each Init's filesystem replaced by a generation-tagged recording one via a build-tagged wrap point; failures injected into config JSON, config functions, filesystem construction, restoration mounts, Mount/Check/Unmount; manager death with the store kept. After every operation: served subset-of records, records minus served within the tolerated set of the last failed Init, Check/Unmount delivered to the owning generation, no double mounts, restart re-mounts recorded mountpoints with recorded labels, unknown Unmount succeeds, requests before initialisation fail without crashing (crash isolation in journaled child batches). Concurrent phase under the race detector. Holds on the histories executed.",
+         "Trusted: bbolt; the recording filesystem's model of 'served'; the slack reading of 'plus at most those whose restoration failed during the last initialisation' documented in cmd/c17/NOTES.md.",
+         "DESIGN.md section 5 C17"),
+ "C18": ("exploration",
+         "reference-model + porcupine history checking of the CRI keychain; taint scan of a complete request log with hook-gated interleavings + Go race detector",
+         "(a) cri.NewCRIKeychain over a fake ImageService: sequential Pull/Remove histories with a full (host, ref) query sweep after every request judged by a 60-line model, concurrent histories checked by porcupine (one register per exact reference). (b) keychain + static credentials -> RegistryHostsFromConfig (mirrors with secret headers) -> remote.Resolver -> Blob ReadAt/Cache/Check/Refresh over a scripted in-memory RoundTripper logging every request at two levels (direct, 302/307 to CDN, expiring tokens, 401 challenges, redirect<->direct switches): every secret names its owner host and may appear only there. The order 'fetch read old URL -> refresh completes -> header read' is imposed via hook points; storms run for the race detector. Holds on the histories executed.",
+         "Trusted: porcupine v1.3.0, distribution/reference name normalisation, the taint model (each secret string encodes its owner). Credentials that Go's net/http itself forwards on a same-domain redirect are observed, not judged (not derivable from the statement).",
+         "DESIGN.md section 5 C18"),
 }
 
 PENDING_REASON = "check not built yet in this session (work in progress; DESIGN.md section 5 describes the planned runtime monitor)"
